@@ -10,8 +10,9 @@ the state after it.**
   store satisfying the *same* catalog description (`Cat … ptF sch tbls'`, same page table, same
   trees, page for page) as the live post-state, with the same allocation frontier and row-id
   counter; the LSN counter is the live one minus one (recovery adds the final bump itself).
-* `replay_skips_applied`, `replay_tolerates_present` (in `ReplayInsert2`), `replay_clean`: records
-  that are already applied change nothing but the LSN counter.
+* `replay_skips_applied`, `replay_tolerates_present` (in `ReplayInsert2`), `replay_clean_gen`,
+  `replay_clean`: records that are already applied change nothing but the LSN counter and - an INSERT
+  record with a key beyond it - the row-id counter.
 * `replay_history`: a list of statements run live, their logs concatenated and replayed on the
   store they started from.
 * non-vacuity on the concrete store `st0` of `RefineStmt`.
@@ -200,18 +201,40 @@ def Applied (tbls : List (Bytes × Levels)) (s : Store) (r : WalRec) : Prop :=
   (∃ n d, view s r.page = some (n, d) ∧ nodeOff n = r.page ∧ r.lsn ≤ nodeLSN n) ∨
   (r.op = c_OpInsert ∧ ∃ table t, (table, t) ∈ tbls ∧ r.page = rootOff t ∧ r.cell ∈ keys t)
 
-/-- **Recovery of a fully flushed database changes no table**: a log all of whose records are
-already applied (skipped by LSN, or INSERTs of keys already present) is replayed without error and
-without any visible change; of the header only `nextLSN` moves, to the largest LSN seen. -/
-theorem replay_clean (log : List WalRec) (s : Store) (pt sch : Levels) (tbls : List (Bytes × Levels))
+/-- the row-id counter after the replay of a log: raised to the key of every INSERT record in it -/
+def maxKey (log : List WalRec) (m : Nat) : Nat :=
+  log.foldl (fun m r => if r.op == c_OpInsert then max m r.cell else m) m
+
+theorem maxKey_of_le (log : List WalRec) (m : Nat) (h : ∀ r ∈ log, r.op = c_OpInsert → r.cell ≤ m) :
+    maxKey log m = m := by
+  induction log with
+  | nil => rfl
+  | cons r rest ih =>
+    have hr : (if r.op == c_OpInsert then max m r.cell else m) = m := by
+      split
+      · rename_i hb
+        exact Nat.max_eq_left (h r List.mem_cons_self (by simpa using hb))
+      · rfl
+    unfold maxKey at ih ⊢
+    rw [List.foldl_cons, hr]
+    exact ih (fun r' hr' => h r' (List.mem_cons_of_mem _ hr'))
+
+/-- **Recovery of a fully flushed database changes no table** (general form): a log all of whose
+records are already applied (skipped by LSN, or INSERTs of keys already present) is replayed without
+error and without any visible change; of the header only the two counters move: `nextLSN` to the
+largest LSN seen, and the row-id counter to the largest key of an INSERT record seen - also of a
+skipped one (the pages of a torn flush may be ahead of the header). -/
+theorem replay_clean_gen (log : List WalRec) (s : Store) (pt sch : Levels) (tbls : List (Bytes × Levels))
     (h : Cat s pt sch tbls) (hall : ∀ r ∈ log, Applied tbls s r) :
     ∃ s', replayAll log s = (s', none, false) ∧ view s' = view s ∧ Cat s' pt sch tbls ∧
-      s'.hdr = { s.hdr with nextLSN := log.foldl (fun m r => max m r.lsn) s.hdr.nextLSN } := by
+      s'.hdr = { s.hdr with nextLSN := log.foldl (fun m r => max m r.lsn) s.hdr.nextLSN,
+                            lastKey := maxKey log s.hdr.lastKey } := by
   induction log generalizing s with
   | nil => exact ⟨s, rfl, rfl, h, rfl⟩
   | cons r rest ih =>
     have hstep : ∃ s1, replayOne r s = (s1, none, false) ∧ view s1 = view s ∧ Cat s1 pt sch tbls ∧
-        s1.hdr = { s.hdr with nextLSN := max s.hdr.nextLSN r.lsn } := by
+        s1.hdr = { s.hdr with nextLSN := max s.hdr.nextLSN r.lsn,
+                              lastKey := if r.op == c_OpInsert then max s.hdr.lastKey r.cell else s.hdr.lastKey } := by
       rcases hall r List.mem_cons_self with ⟨n, d, hv, ho, hl⟩ | ⟨hop, table, t, ht, hpg, hk⟩
       · obtain ⟨s1, e, v, hh, hc⟩ := replay_skips_applied r s n d hv ho hl
         exact ⟨s1, e, v, hc _ _ _ h, hh⟩
@@ -220,7 +243,9 @@ theorem replay_clean (log : List WalRec) (s : Store) (pt sch : Levels) (tbls : L
           cases r; simp only at hop hpg; subst hop hpg; rfl
         rw [← hr] at e
         refine ⟨s1, e, v, hc, ?_⟩
-        rw [hh, Nat.max_eq_left ((h.tree t (Cat.tb_mem ht)).2.2.2.2 _ hk)]
+        have hop1 : (r.op == c_OpInsert) = true := by rw [hop]; decide
+        rw [hh]
+        simp only [hop1, if_true]
     obtain ⟨s1, e1, v1, hc1, hh1⟩ := hstep
     have hall1 : ∀ r' ∈ rest, Applied tbls s1 r' := by
       intro r' hr'
@@ -230,7 +255,22 @@ theorem replay_clean (log : List WalRec) (s : Store) (pt sch : Levels) (tbls : L
       exact this
     obtain ⟨s', e', v', hc', hh'⟩ := ih s1 hc1 hall1
     refine ⟨s', by rw [replayAll_cons_ok' e1]; exact e', v'.trans v1, hc', ?_⟩
-    rw [hh', hh1, List.foldl_cons]
+    rw [hh', hh1]
+    simp only [maxKey, List.foldl_cons]
+
+/-- **Recovery of a fully flushed database changes no table**: a log all of whose records are
+already applied (skipped by LSN, or INSERTs of keys already present) and none of whose INSERT records
+carries a key beyond the row-id counter (every logged key was handed out by the counter, and a
+complete flush wrote the counter) is replayed without error and without any visible change; of the
+header only `nextLSN` moves, to the largest LSN seen. -/
+theorem replay_clean (log : List WalRec) (s : Store) (pt sch : Levels) (tbls : List (Bytes × Levels))
+    (h : Cat s pt sch tbls) (hall : ∀ r ∈ log, Applied tbls s r)
+    (hkeys : ∀ r ∈ log, r.op = c_OpInsert → r.cell ≤ s.hdr.lastKey) :
+    ∃ s', replayAll log s = (s', none, false) ∧ view s' = view s ∧ Cat s' pt sch tbls ∧
+      s'.hdr = { s.hdr with nextLSN := log.foldl (fun m r => max m r.lsn) s.hdr.nextLSN } := by
+  obtain ⟨s', e, v, c, hh⟩ := replay_clean_gen log s pt sch tbls h hall
+  refine ⟨s', e, v, c, ?_⟩
+  rw [hh, maxKey_of_le log _ hkeys]
 
 /-! ### a history of statements -/
 
